@@ -1,6 +1,7 @@
 import Pi2.NotationThm
 import Pi2.Sound.Inst
 import Pi2.RustTie
+import Pi2.PyTie
 /-!
 # C11 — substitution and instantiation obey their algebra
 
@@ -389,5 +390,18 @@ theorem rust_substitution_is_the_model :
     (∀ p x plug, Gen.Rust.apply_esubst p x plug = Pat.applyESubst x plug p) ∧
     (∀ p x plug, Gen.Rust.apply_ssubst p x plug = Pat.applySSubst x plug p) :=
   ⟨RustTie.substTranslated, RustTie.apply_esubst_eq, RustTie.apply_ssubst_eq⟩
+
+/-- the Python pattern operations as written in `pattern.py` (translated on every run, `Pi2/Gen/PyPattern.lean`) are the
+hand-written Python semantics on notation-free patterns that the theorems above are stated about -/
+theorem python_pattern_operations_are_the_model :
+    Gen.Py.translated = true ∧
+    (∀ p e, Gen.Py.evar_is_free p e = Pat.eFresh e p) ∧
+    (∀ p, Gen.Py.metavars p = Py.metavars p) ∧
+    (∀ p x plug, Gen.Py.apply_esubst p x plug = Py.esub x plug p) ∧
+    (∀ p x plug, Gen.Py.apply_ssubst p x plug = Py.ssub x plug p) ∧
+    (∀ p, Gen.Py.instantiate p [] = p) ∧
+    (∀ p δ, δ ≠ [] → Gen.Py.instantiate p δ = Py.inst (Py.lookup δ) p) :=
+  ⟨PyTie.translated, PyTie.evar_is_free_eq, PyTie.metavars_eq, PyTie.apply_esubst_eq, PyTie.apply_ssubst_eq,
+   PyTie.instantiate_nil, PyTie.instantiate_eq⟩
 
 end C11
